@@ -6,20 +6,23 @@
 (* The liveness argument itself is Flow.tla.                               *)
 (***************************************************************************)
 EXTENDS Integers, Sequences, TLC, Json
-CONSTANTS RoundCounts, Emit
+CONSTANTS RoundCounts, Writers, Emit
 VARIABLES f, ph
 vars == <<f, ph>>
 Forms == {"grpc", "grpcweb", "connect_stream"}
 Targets == {"connect", "grpc", "grpcweb"}
 Init == ph = "pick" /\ f = [form |-> "grpc", target |-> "grpc", codec |-> "proto", tcodec |-> "proto", comp |-> "", tcomp |-> "",
-                            hdcomp |-> "", rounds |-> 1, readbuf |-> 0, split |-> FALSE]
+                            hdcomp |-> "", rounds |-> 1, readbuf |-> 0, split |-> FALSE, writer |-> ""]
 Pick == /\ ph = "pick"
         /\ \E form \in Forms, tg \in Targets, c \in {"proto", "json"}, tc \in {"proto", "json"}, z \in {"", "gzip"}, tz \in {"", "gzip"},
-              hz \in {"", "gzip"}, r \in RoundCounts, rb \in {0, 3}, sp \in BOOLEAN :
+              hz \in {"", "gzip"}, r \in RoundCounts, rb \in {0, 3}, sp \in BOOLEAN, w \in Writers :
              /\ (hz = "gzip" => z = "gzip")           \* the handler may only use a compression the client accepts
              /\ (rb = 3 => sp)                        \* small read buffers together with split writes
+             \* how the client connection's ResponseWriter offers flushing: itself (""), a buffering middleware
+             \* with Flush and Unwrap ("mw"), one with FlushError only ("errflusher"), a wrapper with Unwrap only
+             /\ (w # "" => (rb = 0 /\ ~sp /\ hz = ""))
              /\ f' = [form |-> form, target |-> tg, codec |-> c, tcodec |-> tc, comp |-> z, tcomp |-> tz, hdcomp |-> hz,
-                      rounds |-> r, readbuf |-> rb, split |-> sp]
+                      rounds |-> r, readbuf |-> rb, split |-> sp, writer |-> w]
         /\ ph' = "done"
 Done == ph = "done" /\ UNCHANGED vars
 Next == Pick \/ Done
